@@ -612,6 +612,13 @@ def msg_lattice(rng):
             ("ff_32", b"\xff" * 32)]
 
 
+def boundary_digests():
+    """32-byte strings whose integer sits on the edges of the reduction `% n` (and of the field)"""
+    vals = [("0", 0), ("1", 1), ("n-1", N - 1), ("n", N), ("n+1", N + 1), ("p", P), ("2^256-1", 2**256 - 1), ("2^255", 2**255),
+            ("n//2", N // 2), ("2^256-n", 2**256 - N)]  # 2n does not fit 32 bytes: n+1 and 2^256-1 are the multiples' neighbours that do
+    return [(name, v.to_bytes(32, "big")) for name, v in vals]
+
+
 def der(r, s):
     def enc(v):
         b = v.to_bytes((v.bit_length() + 8) // 8 or 1, "big")
@@ -659,6 +666,30 @@ def s_dsa(ctx, rng):  # noqa: PLR0912, PLR0915
         L["dsa.sign"].append(f"dual.dsa.sign {hx(m)} {q} - 1 1 1 -")
         L["dsa.signrec"].append(f"dual.dsa.signrec {hx(m)} {q} - 1")
         L["dsa.signer"].append(f"dual.dsa.signer {hx(m)} {q} {f_b(rng.random() < 0.5)} 1")
+    # message digests on the edges of `% n`: every signing and verifying entry point, every option that changes the arm
+    for name, bm in boundary_digests():
+        ctx.count("dsa.sign.class", "msg_int_" + name)
+        for qq in (q, 1, N - 1):
+            L["dsa.sign"].append(f"dual.dsa.sign {hx(bm)} {qq} - 1 1 1 -")
+            L["dsa.sign"].append(f"dual.dsa.sign {hx(bm)} {qq} - 1 0 0 -")
+            L["dsa.sign"].append(f"dual.dsa.sign {hx(bm)} {qq} - 0 0 1 -")
+            L["dsa.sign"].append(f"dual.dsa.sign {hx(bm)} {qq} 7 1 0 1 -")
+            L["dsa.signrec"].append(f"dual.dsa.signrec {hx(bm)} {qq} - 1")
+            L["dsa.signrec"].append(f"dual.dsa.signrec {hx(bm)} {qq} 9 0")
+            L["dsa.signer"].append(f"dual.dsa.signer {hx(bm)} {qq} 1 1")
+            L["dsa.signer"].append(f"dual.dsa.signer {hx(bm)} {qq} 0 0")
+        # a signature made by EACH arm, verified / recovered by both
+        for serving in (True, False):
+            with arm(serving):
+                bsg = dsa.sign_(bm, q, grind=False)
+            st = f"{bsg.r}:{bsg.s}"
+            for ktok in (hx(sec_of(Q)), f"{Q[0]},{Q[1]}"):
+                L["dsa.assert"].append(f"dual.dsa.assert {hx(bm)} {ktok} {st}")
+                L["dsa.verify"].append(f"dual.dsa.verify {hx(bm)} {ktok} {st}")
+            for kid in (0, 1):
+                L["dsa.recover"].append(f"dual.dsa.recover {kid} {hx(bm)} {st}")
+            L["dsa.recoverall"].append(f"dual.dsa.recoverall {hx(bm)} {st}")
+            L["eng.dsa"].append(f"dual.eng.dsa {hx(bm)} {hx(sec_of(Q))} {hx(der(bsg.r, min(bsg.s, N - bsg.s)))}")
     for cs, k in scalar_lattice(rng):  # explicit nonce: both arms take the Python path (guard: nonce is None)
         ctx.count("dsa.sign.class", "nonce_" + cs)
         L["dsa.sign"].append(f"dual.dsa.sign {hx(msg)} {q} {k} 1 0 1 -")
@@ -760,6 +791,18 @@ def s_ssa(ctx, rng):  # noqa: PLR0915
             s2 = ssa.sign_(m, q, aux)
         L["ssa.assert"].append(f"dual.ssa.assert {hx(m)} {hx(x_q.to_bytes(32, 'big'))} {s2.r}:{s2.s}")
         L["eng.ssa"].append(f"dual.eng.ssa {hx(m)} {hx(x_q.to_bytes(32, 'big'))} {hx(s2.serialize())}")
+    for name, bm in boundary_digests():  # BIP340 reduces its challenge `% n` too: the same edges as messages and as aux
+        ctx.count("ssa.sign.class", "msg_int_" + name)
+        for qq in (q, 1, N - 1):
+            L["ssa.sign"].append(f"dual.ssa.sign {hx(bm)} {qq} {hx(aux)} 1")
+            L["ssa.sign"].append(f"dual.ssa.sign {hx(msg)} {qq} {hx(bm)} 0")
+            L["ssa.signer"].append(f"dual.ssa.signer {hx(bm)} {qq} {hx(bm)} 1")
+        for serving in (True, False):
+            with arm(serving):
+                s3 = ssa.sign_(bm, q, aux)
+            L["ssa.assert"].append(f"dual.ssa.assert {hx(bm)} {hx(x_q.to_bytes(32, 'big'))} {s3.r}:{s3.s}")
+            L["ssa.verify"].append(f"dual.ssa.verify {hx(bm)} {hx(x_q.to_bytes(32, 'big'))} {hx(s3.serialize())}")
+            L["eng.ssa"].append(f"dual.eng.ssa {hx(bm)} {hx(x_q.to_bytes(32, 'big'))} {hx(s3.serialize())}")
     for ln in (0, 16, 31, 33, 64):
         ctx.count("ssa.sign.class", f"aux_len_{ln}")
         L["ssa.sign"].append(f"dual.ssa.sign {hx(msg)} {q} {hx(common.rand_bytes(rng, ln))} 1")
@@ -1412,6 +1455,45 @@ def _o_switch(w):
 ORACLES["switch"] = _o_switch
 
 
+def _o_held_object(w):
+    """objects that capture the arm at construction (`dsa.Signer`, `ssa.Signer`, `_TweakChain`): built under one setting,
+    used under the other, their answers must equal both arms' (the C04 property; what they CALL is not the point)"""
+    initial = _curve.is_libsecp256k1_serving()
+    msg, q, aux, ts = unhx(w["msg"]), w["q"], unhx(w["aux"]), w["tweaks"]
+    try:
+        want = {}
+        for srv in (True, False):
+            with arm(srv):
+                want[srv] = (canon(lambda: dsa.sign_(msg, q).serialize()), canon(lambda: ssa.sign_(msg, q, aux).serialize()),
+                             canon(lambda: [_curve._tweak_add_var(_curve.mult(q), t, EC) for t in ts]))
+        if want[True] != want[False]:
+            return False, f"free functions differ between the arms: {want[True]} / {want[False]}"
+        for built in (True, False):
+            _curve.set_libsecp256k1_serving(serving=built)
+            ds, ss_, ch = dsa.Signer(q), ssa.Signer(q), _curve._TweakChain(_curve.mult(q), EC)
+            holds = (ds._pub_key_sec is not None, ss_._signer is not None, ch._chain is not None)
+            if holds != (built, built, built):
+                return False, f"built with serving={built}: holds bindings objects {holds}"
+            _curve.set_libsecp256k1_serving(serving=not built)
+            got = (canon(lambda: ds.sign_(msg)), canon(lambda: ss_.sign_(msg, aux)), canon(lambda: [ch.point(t) for t in ts]))
+            if got != want[True]:
+                return False, (f"objects built with serving={built} and used with serving={not built} answer {got}, "
+                               f"the arms answer {want[True]}")
+            # the switch does not reach the object: it still dispatches as built (recorded, not required)
+            with spy(dsa, "_delegated_sign_") as hit:
+                ds.sign_(msg)
+            if bool(hit) != built:
+                return False, f"dsa.Signer built with serving={built}: delegates={bool(hit)} after the switch"
+            ds.wipe()
+            ss_.wipe()
+        return True, "answers independent of the arm captured at construction"
+    finally:
+        _curve.set_libsecp256k1_serving(serving=initial)
+
+
+ORACLES["held_object"] = _o_held_object
+
+
 def s_switch(ctx, rng):
     for _ in range(ctx.n(18, 240)):
         m, Q = g_scalar(rng), g_point(rng)
@@ -1419,6 +1501,12 @@ def s_switch(ctx, rng):
                            f"dual.ssa.sign {hx(common.rand_bytes(rng, 32))} {m} {hx(bytes(32))} 1", f"dual.tweakadd {f_pt(Q)} {m}"])
         hists = [[rng.getrandbits(1) for _ in range(rng.randrange(1, 7))] for _ in range(4)]
         ctx.check("switch", {"line": line, "histories": hists})
+    digs = boundary_digests()
+    for i in range(ctx.n(12, 200)):
+        qh = g_scalar(rng)
+        ts = [rng.choice([0, 1, N - qh, g_scalar(rng), N, -qh]) for _ in range(rng.randrange(1, 5))]
+        ctx.check("held_object", {"msg": (digs[i][1] if i < len(digs) else common.rand_bytes(rng, 32)).hex(), "q": qh,
+                                  "aux": common.rand_bytes(rng, 32).hex(), "tweaks": ts})
 
 
 # ------------------------------------------------------------------ T2: verdict tables against the real code
@@ -1545,9 +1633,15 @@ def s_verdict(ctx, rng, register_only=False):  # noqa: PLR0912, PLR0915
     CTRL = {"valid": cb, "parityFlipped": bytes([cb[0] ^ 1]) + cb[1:], "otherKey": cb[:1] + G[0].to_bytes(32, "big") + cb[33:],
             "pNotX": cb[:1] + nx.to_bytes(32, "big") + cb[33:], "pGeP": cb[:1] + (P + 3).to_bytes(32, "big") + cb[33:],
             "badLength": cb[:-1], "tooLong": cb[:33] + bytes(32 * 129)}
-    for cq, qb in (("len32", outq), ("otherLength", b"\x02" + outq)):
+    # several representatives per class: `another length` is not homogeneous (the key is compared as an integer)
+    qreps = [("len32", outq), ("zeroPadded", b"\x00" + outq), ("zeroPadded", b"\x00\x00" + outq), ("zeroPadded", bytes(8) + outq),
+             ("otherValue", b"\x02" + outq), ("otherValue", outq[:31]), ("otherValue", outq + b"\x00"), ("otherValue", b""),
+             ("otherValue", b"\x01" + outq[1:] + b"\x00")]
+    if outq[0] == 0:
+        qreps.append(("zeroPadded", outq.lstrip(b"\x00")))
+    for j, (cq, qb) in enumerate(qreps):
         for cc, ctl in CTRL.items():
-            reg("tap.check", [cq, cc], f"dual.tap.check {hx(qb)} {hx(sb)} {hx(ctl)}")
+            reg("tap.check", [cq, cc, str(j)], f"dual.tap.check {hx(qb)} {hx(sb)} {hx(ctl)}")
     # BIP32: one step under a stubbed HMAC (IL >= n, the cancelling IL and the ordinary one)
     from btclib.bip32 import BIP32KeyData  # noqa: PLC0415
     kpar = rng.randrange(2, N)
@@ -1763,6 +1857,10 @@ def s_guard(ctx, rng, register_only=False):  # noqa: PLR0915
                                      dsa.sign_(msgh, 7, nonce, ls, ec, hf, grind=False, commit_hash=commit),
                                      ec_is_secp256k1=is_k1, hf_none_or_sha256=hf is sha256, nonce_is_none=nonce is None, lower_s=ls,
                                      commit_is_none=commit is None)
+                    emit("dsa_signer_init__sec_from_pub_key", dsa, "_sec_from_pub_key", serving,
+                         lambda ec=ec, hf=hf: dsa.Signer(7, ec, hf), ec_is_secp256k1=is_k1, hf_none_or_sha256=hf is sha256)
+                    emit("ssa_signer_init__Signer", ssa, "libsecp256k1_ssa.Signer", serving,
+                         lambda ec=ec, hf=hf: ssa.Signer(7, ec, hf), ec_is_secp256k1=is_k1, hf_none_or_sha256=hf is sha256)
                     for commit in (None, b"\x01" * 32):
                         emit("ssa_sign__sign_custom", ssa, "libsecp256k1_ssa.sign_custom", serving,
                              lambda ec=ec, hf=hf, commit=commit: ssa.sign_(b"m", 7, bytes(hf().digest_size), ec, hf, commit_hash=commit),
